@@ -269,7 +269,7 @@ def label_shape(shape, reps, wfpick):
 
 def gen_cases(rng, tier, ctx):
     cases = []
-    n = 260 if tier == 'quick' else 2500
+    n = 260 if tier == 'quick' else 6000
     for _ in range(n):
         cases.append(gen_prog_case(rng, tier))
     # targeted: small limits around hand-picked restructuring situations
